@@ -83,6 +83,14 @@ theorem iptw_measures_saturated (l : List (Row F)) (S : List Nat) (hS : Strata l
   have e0 : m0 = s0 := iptw_saturated l S hS hpos stab t false n hn0 hn1 p hp q hq mnum (hm false)
   rw [e1, e0]; exact ⟨rfl, rfl, rfl⟩
 
+/-- **Tie to the source (IPTW).**  The weight column handed to the marginal structural model, regenerated from the
+    text of `IPTW.fit` on every run, is IPTW × IPMW × user weight — the row weight `ω r · r.w` that `hajek` applies
+    with `ω = iptwOmega` (whose last factor is the missingness weight). -/
+theorem iptw_final_weight_generated (hasIpmw hasWeight : Bool) (iptw ipmw : Row F → F) (r : Row F) :
+    Gen.iptw_final_weight hasIpmw hasWeight iptw ipmw r
+      = (iptw r * (if hasIpmw then ipmw r else 1)) * (if hasWeight then r.w else 1) := by
+  cases hasIpmw <;> cases hasWeight <;> simp [Gen.iptw_final_weight]
+
 /-- **TimeFixedGFormula.**  Saturated outcome model: the mean over the target rows of the prediction
     under "treat all" / "treat none" is the standardized mean.  (Rows with a missing outcome are
     target rows: `predict_missing=True`.) -/
